@@ -665,10 +665,28 @@ func TestC17HandlerFormat(t *testing.T) {
 			c.Class("handler-format/receiver-" + spelling)
 		}
 		o := buildOutput(ts, byte(rapid.IntRange(0, 255).Draw(rt, "version")), rapid.SliceOfN(rapid.Byte(), 32, 32).Draw(rt, "blockhash"))
-		if r := e.Deliver(ophosttypes.NewMsgProposeOutput(prop.Str, 1, 1, 10, o.Root[:])); !r.OK() {
+		// the output that commits them is the bridge's first, second or third (index and bridge id then differ)
+		outIdx := uint64(rapid.IntRange(1, 3).Draw(rt, "outputIndex"))
+		for k := uint64(1); k < outIdx; k++ {
+			if r := e.Deliver(ophosttypes.NewMsgProposeOutput(prop.Str, 1, k, 3+k, bytes.Repeat([]byte{byte(k)}, 32))); !r.OK() {
+				panic(r.Err)
+			}
+		}
+		if r := e.Deliver(ophosttypes.NewMsgProposeOutput(prop.Str, 1, outIdx, 10, o.Root[:])); !r.OK() {
 			panic(r.Err)
 		}
+		o.Index = outIdx
+		c.Classf("handler-format/output-index-%d", outIdx)
 		e.Advance(2 * time.Minute)
+		// a claim's verdict depends on its bytes and the stored output only: the same refusals when the message is
+		// run in the node's simulation mode (gas estimation) instead of block delivery
+		inSimulation := func(m sdk.Msg) henv.Result {
+			saved := e.Ctx
+			cctx, _ := e.Ctx.CacheContext()
+			e.Ctx = cctx.WithExecMode(sdk.ExecModeSimulate)
+			defer func() { e.Ctx = saved }()
+			return e.Deliver(m)
+		}
 		for i, tu := range ts {
 			dup := false
 			for _, prev := range ts[:i] {
@@ -680,25 +698,44 @@ func TestC17HandlerFormat(t *testing.T) {
 				continue
 			}
 			// the same claim with one more proof element does not hash up to the committed root: refused
-			longer := claimMsg(sub.Str, tu, o, 1, i)
+			longer := claimMsg(sub.Str, tu, o, outIdx, i)
 			longer.WithdrawalProofs = append(longer.WithdrawalProofs, rapid.SampledFrom([][]byte{o.Storage[:], bytes.Repeat([]byte{0}, 32), bytes.Repeat([]byte{0xab}, 32)}).Draw(rt, "extra"))
+			if r := inSimulation(longer); r.OK() {
+				rt.Fatalf("C17 violated: in simulation mode a claim whose proof list continues past the committed root was accepted (block delivery decides by the same bytes): seq=%d leaf %d of %d", tu.Seq, i, n)
+			}
 			if r := e.Deliver(longer); r.OK() {
 				rt.Fatalf("C17 violated: a claim whose proof list continues past the committed root (it folds to another value under the published rule) was accepted: seq=%d leaf %d of %d, %d proof items", tu.Seq, i, n, len(longer.WithdrawalProofs))
 			}
 			// the same claim for 2^64 more: the commitment format has 64 bits for the amount, nothing wider verifies
-			wider := claimMsg(sub.Str, tu, o, 1, i)
+			wider := claimMsg(sub.Str, tu, o, outIdx, i)
 			two64, _ := math.NewIntFromString("18446744073709551616")
 			wider.Amount.Amount = wider.Amount.Amount.Add(two64)
 			if r := e.Deliver(wider); r.OK() {
 				rt.Fatalf("C17 violated: a claim for %s was accepted with the proof of a withdrawal of %d (the amount is committed as a 64-bit number)", wider.Amount, tu.Amount)
 			}
-			r := e.Deliver(claimMsg(sub.Str, tu, o, 1, i))
+			if r := inSimulation(wider); r.OK() {
+				rt.Fatalf("C17 violated: in simulation mode a claim for %s was accepted with the proof of a withdrawal of %d", wider.Amount, tu.Amount)
+			}
+			r := e.Deliver(claimMsg(sub.Str, tu, o, outIdx, i))
 			if !r.OK() {
 				rt.Fatalf("C17 violated: a claim whose commitment was computed by the published format over the message's own fields is rejected: %v\n  withdrawal: seq=%d from=%q to=%q amount=%d%s (leaf %d of %d)", r.Err, tu.Seq, truncStr(tu.From, 40), tu.To, tu.Amount, tu.Denom, i, n)
 			}
 			evs := henv.EventAttrs(r.Events, ophosttypes.EventTypeFinalizeTokenWithdrawal)
 			if len(evs) != 1 || evs[0][ophosttypes.AttributeKeyTo] != tu.To || evs[0][ophosttypes.AttributeKeyFrom] != tu.From {
 				rt.Fatalf("C17 violated: the finalize_token_withdrawal event does not carry the committed strings: %v (committed from=%q to=%q)", evs, truncStr(tu.From, 40), tu.To)
+			}
+			wantEv := map[string]string{
+				ophosttypes.AttributeKeyBridgeId:    "1",
+				ophosttypes.AttributeKeyOutputIndex: fmt.Sprint(outIdx),
+				ophosttypes.AttributeKeyL2Sequence:  fmt.Sprint(tu.Seq),
+				ophosttypes.AttributeKeyL1Denom:     tu.Denom,
+				ophosttypes.AttributeKeyL2Denom:     ref.L2Denom(1, tu.Denom),
+				ophosttypes.AttributeKeyAmount:      fmt.Sprint(tu.Amount),
+			}
+			for k, v := range wantEv {
+				if got := evs[0][k]; got != v {
+					rt.Fatalf("C17 violated: the finalize_token_withdrawal event says %s=%q; by the published formats it is %q (bridge 1, output %d, %d%s)", k, got, v, outIdx, tu.Amount, tu.Denom)
+				}
 			}
 		}
 		c.NonTrivial()
